@@ -120,7 +120,8 @@ class CGraph(engine.Graph):
         if not part and s.defaults: L.append('default ' + ' '.join(s.defaults))
         return '\n'.join(L) + '\n'
     def declared_rules(s):
-        return {'phony'} | {s.rule_name(e) for e in s.edges if not e.phony} | set(getattr(s, 'extra_rules', []))
+        # what `-t clean -r NAME` can find: the rules of the TOP-LEVEL file (a rule declared only inside the subninja file is unknown there)
+        return {'phony'} | {s.rule_name(e) for e in s.edges if not e.phony and not s.in_cpart(e)} | set(getattr(s, 'extra_rules', []))
 
 FEAT = dict(implicit=0.4, orderonly=0.35, multiout=0.35, impout=0.2, phony=0.25, restat=0.2, generator=0.3, alias=0.4,
             deps=0.45, validations=0.12, pools=0.0, rsp=0.3, dyndep=0.0, subdirs=0.3)
@@ -419,7 +420,7 @@ def model_case(cid, st, pre):
     lines = ['case %s mode=%s dry=%d gen=%d' % (cid, st.mode, 1 if st.dry else 0, 1 if st.gen else 0)]
     for e, outs, ins in L.edges:
         lines.append('edge outs=%s ins=%s vals=%s phony=%d generator=%d rule=%d depfile=%s rspfile=%s' % (
-            hexl(outs), hexl(ins), hexl(e.vals), 1 if e.phony else 0, 1 if (e.generator and not e.phony) else 0, rid[g.rule_name(e)],
+            hexl(outs), hexl(ins), hexl(e.vals), 1 if e.phony else 0, 1 if (e.generator and not e.phony) else 0, rid.setdefault(g.rule_name(e), 500 + len(rid)),
             hx(e.depfile) if (e.depfile and not e.phony) else '-', hx(e.rsp) if (e.rsp and not e.phony) else '-'))
     lines.append('rules ' + ','.join(str(x) for x in decl))
     stuck = sorted(d for d in pre['dirs'] if d not in pre['files'])
